@@ -25,14 +25,24 @@
 (***************************************************************************)
 EXTENDS Integers, FiniteSets, TLC
 
-CONSTANTS Req, MarkBeforeSend
+CONSTANTS
+  \* @type: Set(Str);
+  Req,
+  \* @type: Bool;
+  MarkBeforeSend
 
 VARIABLES
+  \* @type: Bool;
   mark,     \* the database is in dbInFlushing
+  \* @type: Int;
   queue,    \* requests of the database in the channel
+  \* @type: Int;
   running,  \* requests a worker is executing
+  \* @type: Int;
   inflight, \* flushInFlight
+  \* @type: Str -> Str;
   pc,       \* [Req -> {"idle","checked","sent","done","dropped"}]
+  \* @type: Bool;
   dirty     \* the database has data to flush
 
 vars == <<mark, queue, running, inflight, pc, dirty>>
